@@ -10,7 +10,8 @@ Definition files := list (name * (bytes * N)).      (* directory listing: name, 
 Record run_obs := mkRun {
   r_trace : list (ev * option nat);                 (* state-changing primitive calls with errno *)
   r_outcome : oobs;                                 (* what the caller of the with-block saw *)
-  r_files : files                                   (* the real directory afterwards *)
+  r_files : files;                                  (* the real directory afterwards *)
+  r_intruded : bool                                 (* the scheduled other process really created the destination *)
 }.
 
 Record c04_case := mkCase {
@@ -21,7 +22,8 @@ Record c04_case := mkCase {
   k_raises : bool;
   k_sched : list (nat * action);
   k_run : run_obs;                                  (* the uninterrupted run *)
-  k_crashes : list (nat * files)                    (* directory after killing the process before event k *)
+  k_crashes : list (nat * files);                   (* directory after killing the process before event k *)
+  k_asyncs : list files                             (* directory after SIGKILL at an arbitrary instant *)
 }.
 
 (* ---- equality on observations ---- *)
@@ -91,7 +93,13 @@ Definition agree_crash (c : c04_case) (kf : nat * files) : bool :=
   (* killed exactly when the run has a k-th event *)
   Bool.eqb (match o with Crashed => true | _ => false end) (Nat.ltb k (length (r_trace (k_run c)))).
 
-Definition agree (c : c04_case) : bool := agree_run c && forallb (agree_crash c) (k_crashes c).
+(* a kill at an arbitrary instant leaves the directory of SOME crash point of the model *)
+Definition agree_async (c : c04_case) (fobs : files) : bool :=
+  existsb (fun k => let '(_, w) := run_model c (Some k) in files_agree (w_fs w) fobs (cands c))
+          (seq 0 (S (length (r_trace (k_run c))))).
+
+Definition agree (c : c04_case) : bool :=
+  agree_run c && forallb (agree_crash c) (k_crashes c) && forallb (agree_async c) (k_asyncs c).
 
 (* ---- holds: the implementation's observations satisfy the Spec ---- *)
 Definition call_of (e : ev * option nat) : call :=
@@ -121,6 +129,7 @@ Definition holds (c : c04_case) : bool :=
   let new := new_content (k_body c) in
   let r := k_run c in
   forallb (fun kf => dest_ok (olds c) new (dest_of c (snd kf))) (k_crashes c) &&
+  forallb (fun f => dest_ok (olds c) new (dest_of c f)) (k_asyncs c) &&
   dest_ok (olds c) new (dest_of c (r_files r)) &&
   (match r_outcome r with
    | OOk => normal_exit_ok new (dest_of c (r_files r))
@@ -142,4 +151,4 @@ Definition c04_explain (c : c04_case) :=
    map (fun kf => let '(o', w') := run_model c (Some (fst kf)) in
                   (fst kf, show_files c (w_fs w'),
                    dest_ok (olds c) (new_content (k_body c)) (dest_of c (snd kf)))) (k_crashes c),
-   (agree_run c, map (agree_crash c) (k_crashes c))).
+   (agree_run c, map (agree_crash c) (k_crashes c), map (agree_async c) (k_asyncs c))).
